@@ -49,14 +49,21 @@ def _md(a, b):
 
 
 def min_checked_for(stmts):
-    ms = [st[1] for st in _walk(stmts) if st[0] == "for" and st[3]]
+    ms = [st[1] for st in _walk(stmts) if st[0] == "for" and st[3]] + [st[2] for st in _walk(stmts) if st[0] == "for2" and st[4]]
     return min(ms) if ms else None
+
+
+def min_stop(stmts):
+    """Two-argument _range: the secret stop must not be below the public start."""
+    return max([st[1] for st in _walk(stmts) if st[0] == "for2"] + [0])
 
 
 def max_loop(stmts):
     m = 0
     for st in stmts:
-        if st[0] in ("while", "for"):
+        if st[0] == "for2":
+            m = max(m, st[2], max_loop(st[3]))
+        elif st[0] in ("while", "for"):
             m = max(m, st[2] if st[0] == "while" else st[1])
             m = max(m, max_loop(st[3] if st[0] == "while" else st[2]))
         elif st[0] == "if":
@@ -83,6 +90,8 @@ def _walk(stmts):
             yield from _walk(st[3])
         elif st[0] == "for":
             yield from _walk(st[2])
+        elif st[0] == "for2":
+            yield from _walk(st[3])
         elif st[0] == "lazy":
             pass
 
@@ -127,7 +136,7 @@ def _task(t):
         use = blocks.uses(stmts)
         mx = max_loop(stmts)
         mc = min_checked_for(stmts)
-        ns = list(range(0, (mx if mc is None else mc) + 1)) if "n" in use else [1]
+        ns = list(range(min_stop(stmts), (mx if mc is None else mc) + 1)) if "n" in use else [1]
         bs = [0, 1] if "b" in use else [0]
         chk = has_checkstop(stmts)
         for explicit in (True, False):
@@ -185,7 +194,8 @@ def _task(t):
 
 def only_top_level_for(stmts):
     """checkstopmax is only guaranteed to fire when the loop is not itself under a false guard."""
-    return all(st[0] != "if" and st[0] != "while" for st in stmts) and any(st[0] == "for" and st[3] and st[1] == min_checked_for(stmts) for st in stmts)
+    return all(st[0] != "if" and st[0] != "while" for st in stmts) and any(
+        (st[0] == "for" and st[3] and st[1] == min_checked_for(stmts)) or (st[0] == "for2" and st[4] and st[2] == min_checked_for(stmts)) for st in stmts)
 
 
 def shape(stmts):
@@ -198,6 +208,8 @@ def shape(stmts):
             return "if(" + "|".join(",".join(s(x) for x in blk) for _, blk in st[1]) + (("|else:" + ",".join(s(x) for x in st[2])) if st[2] is not None else "") + ")"
         if st[0] == "while":
             return "while(" + ",".join(s(x) for x in st[3]) + (";brk" if st[4] else "") + ")"
+        if st[0] == "for2":
+            return "for2(" + ",".join(s(x) for x in st[3]) + (";chk" if st[4] else "") + ")"
         return "for(" + ",".join(s(x) for x in st[2]) + (";chk" if st[3] else "") + ")"
     return ";".join(s(x) for x in stmts)
 
@@ -265,6 +277,8 @@ def _fix(stmts):
             out.append(("if", arms, _fix(list(st[2])) if st[2] is not None else None))
         elif st[0] == "while":
             out.append(("while", st[1], st[2], _fix(list(st[3])), st[4]))
+        elif st[0] == "for2":
+            out.append(("for2", st[1], st[2], _fix(list(st[3])), st[4]))
         else:
             out.append(("for", st[1], _fix(list(st[2])), st[3]))
     return out
